@@ -303,9 +303,6 @@ pub trait Suite: Sync {
     fn decap_scan(&self, sk_r: &[u8], pk_s: Option<&[u8]>, enc: &[u8]) -> Res<(Vec<u8>, Scan)>;
 }
 
-fn find(hay: &[u8], pat: &[u8]) -> bool {
-    !pat.is_empty() && hay.len() >= pat.len() && hay.windows(pat.len()).any(|w| w == pat)
-}
 
 /// Moves `v` into a slot owned by the harness, scans the slot for the patterns, runs the value's
 /// destructor in place, and scans the same memory again (volatile reads).
